@@ -1,6 +1,6 @@
 (* C12: concrete accepted histories (built by hand from the model) that witness
    - the monitor fails outside every window when a stop requested through the API is in flight (C12_refuted),
-   - each of the two window flags of W_C12 is needed,
+   - the window flag of W_C12 (commit) is needed; the former witness for sdlag is rejected by the hardened model,
    - the hypotheses of the theorems are satisfiable on a non-trivial history. *)
 From Coq Require Import List ZArith NArith Bool.
 From PC.Base Require Import Assoc.
@@ -50,7 +50,7 @@ Definition ex_commit : list (tid * event) := ex_spawn ++ [(2, ERunChecked false)
    (400, EState 12 STerminating); (400, EProcEnded 12 STerminating); (400, EStopReturn 12);
    (2, EStarted); (2, EState 12 SRunning); (2, ELaunch true)] ++ ex_stop11.
 
-(* 3. window sdlag (F37): the same, the Pending instance being ended by an internal stop (fatal probe result) that
+(* 3. (rejected by the hardened model) the same, the Pending instance being ended by an internal stop (fatal probe result) that
    does not cancel the run context *)
 Definition ex_sdlag : list (tid * event) := ex_spawn ++
   [(500, EProbe 12 false true); (500, EStopEnter 12 false); (500, EStopPending 12); (2, ERunChecked false);
@@ -68,12 +68,11 @@ Proof.
   exists ex_cs, ex_commit. vm_compute. eexists. repeat split; reflexivity.
 Qed.
 
-Lemma C12_sdlag_needed_thm : exists cs evs s,
-  accept (init cs true) evs = Some s /\ holds_C12 true cs evs = false /\ holds_C12w true cs evs = false /\
-  only_flag 1 (final_obs cs evs) = true /\ c12_side cs evs = true /\ c12_noforeign cs evs = true.
-Proof.
-  exists ex_cs, ex_sdlag. vm_compute. eexists. repeat split; reflexivity.
-Qed.
+(* the hardened model rejects this history at its 22nd event: a probe result for an instance that was never launched *)
+Lemma ex_sdlag_rejected :
+  accept (init ex_cs true) ex_sdlag = None /\ fst (accept_prefix (init ex_cs true) ex_sdlag 0) = 21%nat /\
+  nth_error ex_sdlag 21 = Some (500, EProbe 12 false true).
+Proof. vm_compute. repeat split; reflexivity. Qed.
 
 (* 4. a good history: the ordered shutdown stops 12, waits for its completion, then stops 11 *)
 Definition ex_good : list (tid * event) := ex_spawn ++ ex_launch2 ++ ex_sd ++
